@@ -243,16 +243,8 @@ pub proof fn lemma_honest_public_package<C: Ciphersuite>(pk: PublicKeyPackage<C>
         && pk.verifying_shares@[id].0.0 == gmul::<C>(poly::<AL<C>>(bigf, id.0.0)) by { assert(pk.verifying_shares@.dom().contains(id)); }
 }
 
-// (T-b, T-d) THE COMPOSITION THEOREM, one participant: whatever key package / public key package part3 hands to the post_dkg hook in the honest
-// run (spec_part3_pre: the `value` clause of the part3 contract) satisfies, with F = sum_l f(l) the sum polynomial:
-//   signing share = F(i) = sum_l f(l)(i);  verifying share = G*F(i) = the participant's entry in the public key package;
-//   entry j of the public key package = G*F(j) for EVERY participant j;  group key (both packages) = G*F(0) = sum of the constant-term commitments;
-//   threshold t in both packages;  the key material is `honest_keys` on F (the premise of the signing theorems of C01/C04)
-//@serves C07 C01 C09
-pub proof fn thm_honest_dkg_output<C: Ciphersuite>(ids: Set<Identifier<C>>, f: Polys<C>, t: u16, n: u16, i: Identifier<C>,
-        s2: R2Sec<C>, r1: R1Map<C>, r2: R2Map<C>, kp: KeyPackage<C>, pk: PublicKeyPackage<C>)
-    requires dkg_setup::<C>(ids, f, t, n), honest_part3_inputs::<C>(ids, f, t, n, i, s2, r1, r2), spec_part3_pre::<C>(kp, pk, s2, r1, r2)
-    ensures ({
+// the conclusion of the composition theorem for participant i holding (kp, pk), with F = sum_l f(l) the sum polynomial
+pub open spec fn honest_dkg_output<C: Ciphersuite>(ids: Set<Identifier<C>>, f: Polys<C>, t: u16, n: u16, i: Identifier<C>, kp: KeyPackage<C>, pk: PublicKeyPackage<C>) -> bool {
         let bigf = dkg_sum_poly::<C>(ids, f, t);
         let srt = sorted_seq(ids);
         &&& bigf.len() == t && srt.len() == n && srt.no_duplicates() && srt.to_set() == ids
@@ -268,7 +260,18 @@ pub proof fn thm_honest_dkg_output<C: Ciphersuite>(ids: Set<Identifier<C>>, f: P
         &&& pk.verifying_shares@.dom() == ids
         &&& forall|j: Identifier<C>| ids.contains(j) ==> (#[trigger] pk.verifying_shares@[j]).0.0 == gmul::<C>(poly::<AL<C>>(bigf, j.0.0))
         &&& crate::vprops_sign::honest_keys::<C>(bigf, pk.verifying_key.element.0, pk.verifying_shares@, ids)
-    })
+}
+
+// (T-b, T-d) THE COMPOSITION THEOREM, one participant: whatever key package / public key package part3 hands to the post_dkg hook in the honest
+// run (spec_part3_pre: the `value` clause of the part3 contract) satisfies, with F = sum_l f(l) the sum polynomial:
+//   signing share = F(i) = sum_l f(l)(i);  verifying share = G*F(i) = the participant's entry in the public key package;
+//   entry j of the public key package = G*F(j) for EVERY participant j;  group key (both packages) = G*F(0) = sum of the constant-term commitments;
+//   threshold t in both packages;  the key material is `honest_keys` on F (the premise of the signing theorems of C01/C04)
+//@serves C07 C01 C09
+pub proof fn thm_honest_dkg_output<C: Ciphersuite>(ids: Set<Identifier<C>>, f: Polys<C>, t: u16, n: u16, i: Identifier<C>,
+        s2: R2Sec<C>, r1: R1Map<C>, r2: R2Map<C>, kp: KeyPackage<C>, pk: PublicKeyPackage<C>)
+    requires dkg_setup::<C>(ids, f, t, n), honest_part3_inputs::<C>(ids, f, t, n, i, s2, r1, r2), spec_part3_pre::<C>(kp, pk, s2, r1, r2)
+    ensures honest_dkg_output::<C>(ids, f, t, n, i, kp, pk)
 {
     let bigf = dkg_sum_poly::<C>(ids, f, t);
     let srt = sorted_seq(ids);
@@ -318,6 +321,158 @@ pub proof fn thm_honest_dkg_part3_returns<C: Ciphersuite>(res: Part3Result<C>, i
     thm_honest_part3_no_error::<C>(ids, f, t, n, i, s2, r1, r2);
     let (kp0, pk0) = choose|kp0: KeyPackage<C>, pk0: PublicKeyPackage<C>| #[trigger] spec_part3_pre::<C>(kp0, pk0, s2, r1, r2) && res == C::spec_post_dkg(kp0, pk0);
     assert(C::spec_post_dkg(kp0, pk0) == Ok::<(KeyPackage<C>, PublicKeyPackage<C>), Error<C>>((kp0, pk0)));
+}
+
+// ===================================================================================================
+// the honest run, protocol view: composition with the contracts of part1 and part2 (contracts/dkg.vc)
+
+// the polynomial part1 draws from the randomness (stream, pos) for threshold t:  [fresh non-zero key] ++ [t-1 draws]  (spec_part1)
+pub open spec fn part1_coeffs<C: Ciphersuite>(stream: spec_fn(nat) -> u8, pos: nat, t: u16) -> Seq<Scalar<C>>
+{ seq![spec_rnz_val::<C>(stream, pos)] + spec_draws::<C>(stream, spec_rnz_end::<C>(stream, pos), (t - 1) as nat) }
+
+// what the `value` clause of the part1 contract says about a call that returned Ok((sp, pkg)): the secret package holds the polynomial, both
+// packages hold its commitment, and the proof of knowledge in the broadcast package verifies under the caller's identifier
+//@serves C07 C01
+pub proof fn lemma_part1_ok_facts<C: Ciphersuite>(sp: R1Sec<C>, pkg: R1Pkg<C>, id: Identifier<C>, n: u16, t: u16, stream: spec_fn(nat) -> u8, pos: nat)
+    requires t >= 1, spec_part1::<C>(Ok::<(R1Sec<C>, R1Pkg<C>), Error<C>>((sp, pkg)), id, n, t, stream, pos)
+    ensures part1_coeffs::<C>(stream, pos, t).len() == t, sp_coeffs::<C>(sp) == part1_coeffs::<C>(stream, pos, t),
+        sp.identifier == id, sp.min_signers == t, sp.max_signers == n,
+        sp.commitment.0@ == spec_commitment::<C>(sp_coeffs::<C>(sp)), pkg.commitment.0@ == spec_commitment::<C>(sp_coeffs::<C>(sp)),
+        spec_pok_check::<C>(id, pkg.commitment.0@, pkg.proof_of_knowledge) is Ok,
+{
+    let p1 = spec_rnz_end::<C>(stream, pos);
+    lemma_draws_len::<C>(stream, p1, (t - 1) as nat);
+    let a = part1_coeffs::<C>(stream, pos, t);
+    let p2 = spec_draws_end::<C>(stream, p1, (t - 1) as nat);
+    let k = C::spec_generate_nonce(stream, p2).0;
+    assert(spec_compute_pok::<C>(id, a, spec_commitment::<C>(a), k) is Ok);
+    assert(sp_coeffs::<C>(sp) =~= a);
+    thm_pok_complete::<C>(id, a, k);
+}
+
+// the round-one packages participant i receives: everybody else's broadcast package
+pub open spec fn r1_view<C: Ciphersuite>(ids: Set<Identifier<C>>, pkg: spec_fn(Identifier<C>) -> R1Pkg<C>, i: Identifier<C>) -> R1Map<C>
+{ Map::new(ids.remove(i), |l: Identifier<C>| pkg(l)) }
+
+// the round-two packages participant i receives: from every other participant l the package l's part2 made for i
+pub open spec fn r2_view<C: Ciphersuite>(ids: Set<Identifier<C>>, out2: spec_fn(Identifier<C>) -> R2Map<C>, i: Identifier<C>) -> R2Map<C>
+{ Map::new(ids.remove(i), |l: Identifier<C>| out2(l)[i]) }
+
+// every participant l of `ids` called part1(l, n, t, rng_l) with randomness (stream(l), pos(l)) and got Ok((sp(l), pkg(l))): `value` clause of part1
+pub open spec fn honest_round1<C: Ciphersuite>(ids: Set<Identifier<C>>, n: u16, t: u16, stream: spec_fn(Identifier<C>) -> spec_fn(nat) -> u8, pos: spec_fn(Identifier<C>) -> nat,
+        sp: spec_fn(Identifier<C>) -> R1Sec<C>, pkg: spec_fn(Identifier<C>) -> R1Pkg<C>) -> bool {
+    ids.finite() && ids.len() == n && t >= 1
+    && forall|l: Identifier<C>| #[trigger] ids.contains(l) ==> spec_part1::<C>(Ok::<(R1Sec<C>, R1Pkg<C>), Error<C>>((sp(l), pkg(l))), l, n, t, stream(l), pos(l))
+}
+
+// ... and every participant l called part2(sp(l), the broadcast packages of all others) and got Ok((s2(l), out2(l))): `value` clause of part2
+pub open spec fn honest_round2<C: Ciphersuite>(ids: Set<Identifier<C>>, sp: spec_fn(Identifier<C>) -> R1Sec<C>, pkg: spec_fn(Identifier<C>) -> R1Pkg<C>,
+        s2: spec_fn(Identifier<C>) -> R2Sec<C>, out2: spec_fn(Identifier<C>) -> R2Map<C>) -> bool {
+    forall|l: Identifier<C>| #[trigger] ids.contains(l) ==> spec_part2_ok::<C>(s2(l), out2(l), sp(l), r1_view::<C>(ids, pkg, l))
+}
+
+// the polynomials of the run
+pub open spec fn run_polys<C: Ciphersuite>(sp: spec_fn(Identifier<C>) -> R1Sec<C>) -> Polys<C>
+{ |l: Identifier<C>| sp_coeffs::<C>(sp(l)) }
+
+// part2 does not fail in the honest run: n-1 packages, own identifier absent, t commitments each, every proof of knowledge verifies.
+// With the `error`/`value` clauses of the part2 contract: part2 returns Ok and spec_part2_ok holds (the premise honest_round2)
+//@serves C07 C01
+pub proof fn thm_honest_part2_no_error<C: Ciphersuite>(ids: Set<Identifier<C>>, n: u16, t: u16, stream: spec_fn(Identifier<C>) -> spec_fn(nat) -> u8, pos: spec_fn(Identifier<C>) -> nat,
+        sp: spec_fn(Identifier<C>) -> R1Sec<C>, pkg: spec_fn(Identifier<C>) -> R1Pkg<C>, i: Identifier<C>)
+    requires honest_round1::<C>(ids, n, t, stream, pos, sp, pkg), ids.contains(i)
+    ensures spec_part2_err::<C>(sp(i), r1_view::<C>(ids, pkg, i)) is None
+{
+    let r1 = r1_view::<C>(ids, pkg, i);
+    lemma_part1_ok_facts::<C>(sp(i), pkg(i), i, n, t, stream(i), pos(i));
+    assert(r1.dom() =~= ids.remove(i));
+    assert(r1.dom().len() == n - 1);
+    assert forall|id: Identifier<C>| r1.contains_key(id) implies ((#[trigger] r1[id]).commitment.0@.len() as u16) == t by {
+        lemma_part1_ok_facts::<C>(sp(id), pkg(id), id, n, t, stream(id), pos(id));
+        assert(spec_commitment::<C>(sp_coeffs::<C>(sp(id))).len() == t as nat);
+    }
+    let keys = sorted_seq(r1.dom());
+    lemma_sorted_exists::<C>(r1.dom());
+    assert forall|k: int| 0 <= k < keys.len() implies spec_pok_check::<C>(#[trigger] keys[k], r1[keys[k]].commitment.0@, r1[keys[k]].proof_of_knowledge) is Ok by {
+        let l = keys[k];
+        assert(keys.contains(l)); assert(keys.to_set().contains(l)); assert(ids.contains(l));
+        lemma_part1_ok_facts::<C>(sp(l), pkg(l), l, n, t, stream(l), pos(l));
+    }
+    lemma_first_pok_err_none::<C>(keys, r1, keys.len() as int);
+}
+
+// the part1/part2 contracts put every participant of the honest run into the situation of the composition theorem
+//@serves C07 C01
+pub proof fn thm_honest_run_part3_inputs<C: Ciphersuite>(ids: Set<Identifier<C>>, n: u16, t: u16, stream: spec_fn(Identifier<C>) -> spec_fn(nat) -> u8, pos: spec_fn(Identifier<C>) -> nat,
+        sp: spec_fn(Identifier<C>) -> R1Sec<C>, pkg: spec_fn(Identifier<C>) -> R1Pkg<C>, s2: spec_fn(Identifier<C>) -> R2Sec<C>, out2: spec_fn(Identifier<C>) -> R2Map<C>, i: Identifier<C>)
+    requires honest_round1::<C>(ids, n, t, stream, pos, sp, pkg), honest_round2::<C>(ids, sp, pkg, s2, out2), ids.contains(i)
+    ensures dkg_setup::<C>(ids, run_polys::<C>(sp), t, n),
+        honest_part3_inputs::<C>(ids, run_polys::<C>(sp), t, n, i, s2(i), r1_view::<C>(ids, pkg, i), r2_view::<C>(ids, out2, i))
+{
+    let f = run_polys::<C>(sp);
+    assert forall|l: Identifier<C>| ids.contains(l) implies (#[trigger] f(l)).len() == t by {
+        lemma_part1_ok_facts::<C>(sp(l), pkg(l), l, n, t, stream(l), pos(l));
+    }
+    let r1 = r1_view::<C>(ids, pkg, i); let r2 = r2_view::<C>(ids, out2, i);
+    lemma_part1_ok_facts::<C>(sp(i), pkg(i), i, n, t, stream(i), pos(i));
+    assert(spec_part2_ok::<C>(s2(i), out2(i), sp(i), r1));
+    assert(r1.dom() =~= ids.remove(i)); assert(r2.dom() =~= ids.remove(i));
+    assert forall|l: Identifier<C>| #[trigger] r1.contains_key(l) implies r1[l].commitment.0@ == spec_commitment::<C>(f(l)) by {
+        lemma_part1_ok_facts::<C>(sp(l), pkg(l), l, n, t, stream(l), pos(l));
+    }
+    assert forall|l: Identifier<C>| #[trigger] r2.contains_key(l) implies r2[l].signing_share.0.0 == poly::<AL<C>>(f(l), i.0.0) by {
+        assert(ids.contains(l) && l != i);
+        lemma_part1_ok_facts::<C>(sp(l), pkg(l), l, n, t, stream(l), pos(l));
+        // l's part2 saw i's package, so it made the share f(l)(i) for i
+        assert(spec_part2_ok::<C>(s2(l), out2(l), sp(l), r1_view::<C>(ids, pkg, l)));
+        assert(r1_view::<C>(ids, pkg, l).contains_key(i));
+    }
+}
+
+// the `value` clause of the part3 contract (contracts/dkg.vc), for the result `res` of one call
+pub open spec fn part3_value_clause<C: Ciphersuite>(res: Part3Result<C>, s2: R2Sec<C>, r1: R1Map<C>, r2: R2Map<C>) -> bool {
+    spec_part3_guard_err::<C>(s2, r1, r2) is None
+        && spec_first_share_err::<C>(sorted_seq(r2.dom()), r1, r2, s2.identifier, 0) is None
+        && spec_dkg_group_commitment::<C>(spec_part3_commitments::<C>(s2, r1)) is Ok
+    ==> exists|kp0: KeyPackage<C>, pk0: PublicKeyPackage<C>| #[trigger] spec_part3_pre::<C>(kp0, pk0, s2, r1, r2) && res == C::spec_post_dkg(kp0, pk0)
+}
+
+// C07, END TO END over the contracts: n participants run part1, exchange the broadcast packages, run part2, deliver every round-two package to
+// its addressee and run part3 (res(i) = what part3 returned at i, known only through the `value` clause of its contract).  In the default
+// world EVERY participant's part3 returns Ok((kp_i, pk_i)) with the conclusion of the composition theorem (shares on the sum polynomial F of the
+// polynomials drawn in part1, kp_i's verifying share = G*F(i) = pk_i's entry for i, group key G*F(0) = sum of constant-term commitments,
+// threshold t, honest_keys), and all participants hold the same public key package
+//@serves C07 C01 C09
+pub proof fn thm_honest_dkg<C: Ciphersuite>(ids: Set<Identifier<C>>, n: u16, t: u16, stream: spec_fn(Identifier<C>) -> spec_fn(nat) -> u8, pos: spec_fn(Identifier<C>) -> nat,
+        sp: spec_fn(Identifier<C>) -> R1Sec<C>, pkg: spec_fn(Identifier<C>) -> R1Pkg<C>, s2: spec_fn(Identifier<C>) -> R2Sec<C>, out2: spec_fn(Identifier<C>) -> R2Map<C>,
+        res: spec_fn(Identifier<C>) -> Part3Result<C>)
+    requires honest_round1::<C>(ids, n, t, stream, pos, sp, pkg), honest_round2::<C>(ids, sp, pkg, s2, out2), default_world::<C>(),
+        forall|i: Identifier<C>| #[trigger] ids.contains(i) ==> part3_value_clause::<C>(res(i), s2(i), r1_view::<C>(ids, pkg, i), r2_view::<C>(ids, out2, i)),
+    ensures
+        forall|i: Identifier<C>| #[trigger] ids.contains(i) ==> res(i) is Ok
+            && honest_dkg_output::<C>(ids, run_polys::<C>(sp), t, n, i, (res(i)->Ok_0).0, (res(i)->Ok_0).1),
+        forall|i: Identifier<C>, j: Identifier<C>| #![trigger ids.contains(i), ids.contains(j)] ids.contains(i) && ids.contains(j) ==>
+            (res(i)->Ok_0).1.verifying_shares@ == (res(j)->Ok_0).1.verifying_shares@ && (res(i)->Ok_0).1.verifying_key == (res(j)->Ok_0).1.verifying_key
+            && (res(i)->Ok_0).1.min_signers == (res(j)->Ok_0).1.min_signers && (res(i)->Ok_0).1.header == (res(j)->Ok_0).1.header,
+{
+    let f = run_polys::<C>(sp);
+    assert forall|i: Identifier<C>| #[trigger] ids.contains(i) implies res(i) is Ok
+            && spec_part3_pre::<C>((res(i)->Ok_0).0, (res(i)->Ok_0).1, s2(i), r1_view::<C>(ids, pkg, i), r2_view::<C>(ids, out2, i))
+            && honest_dkg_output::<C>(ids, f, t, n, i, (res(i)->Ok_0).0, (res(i)->Ok_0).1) by {
+        let r1 = r1_view::<C>(ids, pkg, i); let r2 = r2_view::<C>(ids, out2, i);
+        thm_honest_run_part3_inputs::<C>(ids, n, t, stream, pos, sp, pkg, s2, out2, i);
+        thm_honest_dkg_part3_returns::<C>(res(i), ids, f, t, n, i, s2(i), r1, r2);
+        thm_honest_dkg_output::<C>(ids, f, t, n, i, s2(i), r1, r2, (res(i)->Ok_0).0, (res(i)->Ok_0).1);
+    }
+    assert forall|i: Identifier<C>, j: Identifier<C>| #![trigger ids.contains(i), ids.contains(j)] ids.contains(i) && ids.contains(j) implies
+            (res(i)->Ok_0).1.verifying_shares@ == (res(j)->Ok_0).1.verifying_shares@ && (res(i)->Ok_0).1.verifying_key == (res(j)->Ok_0).1.verifying_key
+            && (res(i)->Ok_0).1.min_signers == (res(j)->Ok_0).1.min_signers && (res(i)->Ok_0).1.header == (res(j)->Ok_0).1.header by {
+        thm_honest_run_part3_inputs::<C>(ids, n, t, stream, pos, sp, pkg, s2, out2, i);
+        thm_honest_run_part3_inputs::<C>(ids, n, t, stream, pos, sp, pkg, s2, out2, j);
+        thm_honest_dkg_same_public_package::<C>(ids, f, t, n,
+            i, s2(i), r1_view::<C>(ids, pkg, i), r2_view::<C>(ids, out2, i), (res(i)->Ok_0).0, (res(i)->Ok_0).1,
+            j, s2(j), r1_view::<C>(ids, pkg, j), r2_view::<C>(ids, out2, j), (res(j)->Ok_0).0, (res(j)->Ok_0).1);
+    }
 }
 
 } // verus!
